@@ -203,7 +203,7 @@ def run_trees(c, tier, what="basis", lines=None, io=None):
             bad = "no answer: " + r[:100]
         if bad:
             report("first", i, "model self-test trees/%s: the deterministic resolution mcb_sva_trees_first_Z does not return a minimum cycle basis (%s)" % (alg, bad), False,
-                   {"model": r, "model_case": l, "theorem_or_correspondence": "TreesModel.mcb_sva_trees_first_Z / theorem trees_first_total"})
+                   {"model": r, "model_case": l, "theorem_or_correspondence": "TreesModel.mcb_sva_trees_first_Z / theorem TreesProofs3.trees_first_total_modulo_sufficiency (C02_fvs_trees)"})
             continue
         re_lines[alg].append(model_line(gts[i], roots, picks, mcycles)); re_idx[alg].append(i)
     for alg in ("fvs", "iso"):
@@ -212,7 +212,7 @@ def run_trees(c, tier, what="basis", lines=None, io=None):
             if m.startswith("ACCEPT"): stats["first_reaccepted"] += 1
             else:
                 report("first", i, "model self-test trees/%s: the acceptance model rejects the run of its own deterministic resolution (%s)" % (alg, m[:80]), False,
-                       {"model": m, "model_case": ml, "theorem_or_correspondence": "theorem trees_first_accepted"})
+                       {"model": m, "model_case": ml, "theorem_or_correspondence": "theorem TreesProofs3.trees_first_total_modulo_sufficiency (the run of the deterministic resolution is accepted)"})
     return stats
 
 
